@@ -330,6 +330,14 @@ fn oracle_inner(max_samples: usize, max_flows: usize, rounds: &[RoundIn]) -> Vec
         }
         if let Some(last) = rs.last() {
             if last.largest_ttl > 0 && st.target_hop(fid).total_sent() > 0 && st.target_hop(fid).ttl() != last.largest_ttl { fails.push(format!("C10:flow_{id}_target_hop_{}_expected_{}", st.target_hop(fid).ttl(), last.largest_ttl)); }
+            // the designated target hop and the in-round marker follow the LATEST round's path length (0: nothing answered)
+            for h in hops {
+                if h.total_sent() == 0 { continue; }
+                let want_target = last.largest_ttl > 0 && h.ttl() == last.largest_ttl;
+                let want_in_round = h.ttl() <= last.largest_ttl;
+                if st.is_target(h, fid) != want_target { fails.push(format!("C10:flow_{id}_hop_{}_is_target_{}_latest_path_length_{}", h.ttl(), st.is_target(h, fid), last.largest_ttl)); }
+                if st.is_in_round(h, fid) != want_in_round { fails.push(format!("C10:flow_{id}_hop_{}_is_in_round_{}_latest_path_length_{}", h.ttl(), st.is_in_round(h, fid), last.largest_ttl)); }
+            }
         }
     }
     fails.truncate(10);
